@@ -219,8 +219,6 @@ struct C06 : Property
 				         m ? "contains" : "does not contain");
 			if (m && v != m->val)
 				ctx.fail("C06:lookup-wrong-value", "op %zu (%s): key '%s' maps to %s, model has %s", oi, after, printable(k, 20).c_str(), typed_dump(v).c_str(), typed_dump(m->val).c_str());
-			if (!m && v != nullptr)
-				ctx.fail("C06:lookup-mismatch", "op %zu (%s): lookup of absent key '%s' left a value behind", oi, after, printable(k, 20).c_str());
 			if (LIB(json_object_object_get(obj, k.c_str())) != (m ? m->val : nullptr))
 				ctx.fail("C06:lookup-wrong-value", "op %zu (%s): json_object_object_get('%s') disagrees with the model", oi, after, printable(k, 20).c_str());
 		}
